@@ -40,6 +40,7 @@ class Model:
     def build(self):
         closes = collections.defaultdict(list)
         sends = collections.defaultdict(list)
+        wg_adds = collections.defaultdict(list)
         self.servers = collections.defaultdict(dict)
         # --- event timestamps (some events expand into several instants)
         for tid, evs in self.threads.items():
@@ -66,6 +67,8 @@ class Model:
                     closes[e['args'][0]].append(e)
                 if k in ('trysend_ok', 'trysend_dropped'):
                     sends[e['args'][0]].append(e)
+                if k == 'wg_add':
+                    wg_adds[e['args'][0]].append(e)
                 if k == 'abort':
                     self.problems.append('goroutine %d aborts: %s' % (tid, e['args']))
         # --- program order and goroutine start
@@ -106,6 +109,17 @@ class Model:
                         self.cons.append(z3.BoolVal(False))
                     else:
                         self.cons.append(z3.Or(*[c['last'] < e['first'] for c in cs]))
+        # --- wait groups: Wait completes at an instant at which the counter (adds and dones that have happened) is zero
+        for tid, evs in self.threads.items():
+            for e in evs:
+                if e['kind'] == 'wg_wait':
+                    ads = wg_adds.get(e['args'][0], [])
+                    arrive = self.tv(e['name'] + '_arrive')
+                    self.cons.append(arrive > (evs[e['idx'] - 1]['last'] if e['idx'] > 0 else self.thread_start(tid)))
+                    self.cons.append(arrive < e['first'])
+                    self.cons.append(z3.Sum([z3.If(a['last'] < e['first'], z3.IntVal(a['args'][1]), z3.IntVal(0)) for a in ads] + [z3.IntVal(0)]) == 0)
+                    if sum(a['args'][1] for a in ads) != 0:
+                        self.problems.append('WaitGroup waited on at %s: adds and dones do not balance (Wait can never return or the counter goes negative)' % e['pos'])
         for ch, cs in closes.items():
             if len(cs) > 1:
                 self.problems.append('channel closed twice (%s): panic' % ', '.join(str(c['pos']) for c in cs))
